@@ -82,6 +82,14 @@ def main() -> int:
     ap.add_argument('--replay', default=None)
     ap.add_argument('--evidence-dir', default=None)
     a = ap.parse_args()
+    # watchdog: an analysis that does not terminate is an analysis error (exit 2), never a hang
+    import signal
+
+    def _timeout(_sig, _frm):  # noqa: ANN001, ANN202
+        raise core.AnalysisError(f'analysis did not finish within its time budget ({budget} s)')
+    budget = int(os.environ.get('KFV_TIMEOUT', '7200' if a.tier == 'thorough' else '900'))
+    signal.signal(signal.SIGALRM, _timeout)
+    signal.alarm(budget)
     if a.evidence_dir:
         core.EVIDENCE_DIR = a.evidence_dir
     try:
